@@ -150,6 +150,10 @@ class Pool:
             nonlocal exhausted, pending, counter
             if exhausted:
                 return False
+            if not w.proc.is_alive():
+                # an idle worker that exited on its own (a job may ask for a fresh process): replace it first
+                self._restart(w)
+                return False
             if source is not None:
                 st, item = source.poll()
                 if st == "wait":
@@ -223,6 +227,8 @@ class Pool:
                     yield job[0], job[1], {"_worker": "timeout"}
                 elif w.job is None and w.ready and not exhausted:
                     feed(w)
+                elif w.job is None and w.ready and not w.proc.is_alive():
+                    self._restart(w)
                 elif not w.proc.is_alive() and w.job is None and not w.ready:
                     self._restart(w)
 
